@@ -117,17 +117,18 @@ Play ==
           [] ph = "evalloop" ->
                LET r == Look(P)!SingleStep(e) IN
                IF Look(P)!LoopOver(r)
-               THEN LET e1 == Look(P)!EndCont([m |-> r.m, snap |-> r.snap]) IN
+               THEN LET e1 == Look(P)!EndCont([m |-> r.m, snap |-> r.snap, log |-> r.log]) IN
                     /\ h' = [h EXCEPT !.m = e1.m] /\ ev' = [ev EXCEPT !.acc = ev.acc \o Out!CurrentText(e1.m.out)]
                     /\ ph' = "evalcont" /\ e' = <<>> /\ UNCHANGED <<ci, oi, steps, nbad>>
-               ELSE /\ e' = [m |-> r.m, snap |-> r.snap] /\ steps' = steps + 1 /\ UNCHANGED <<ci, h, oi, ph, ev, nbad>>
+               ELSE /\ e' = [m |-> r.m, snap |-> r.snap, log |-> r.log] /\ steps' = steps + 1 /\ UNCHANGED <<ci, h, oi, ph, ev, nbad>>
           [] ph = "loop" ->
                LET r == Look(P)!SingleStep(e) IN
                IF Look(P)!LoopOver(r)
-               THEN LET e1 == Look(P)!EndCont([m |-> r.m, snap |-> r.snap]) IN
+               THEN LET e1 == Look(P)!EndCont([m |-> r.m, snap |-> r.snap, log |-> r.log]) IN
                     \* (the finishing slice of a sliced continue is the continue)
-                    DoneN(P, c.ops[oi], [h EXCEPT !.m = e1.m, !.async = FALSE], "ok", Host(P)!NotesAfterCont(h, e1.m), TRUE)
-               ELSE /\ e' = [m |-> r.m, snap |-> r.snap] /\ steps' = steps + 1 /\ UNCHANGED <<ci, h, oi, ph, ev, nbad>>
+                    IF c.ops[oi].calls # e1.log THEN Fail("Host.external calls", [calls |-> e1.log])
+                    ELSE DoneN(P, c.ops[oi], [h EXCEPT !.m = e1.m, !.async = FALSE], "ok", Host(P)!NotesAfterCont(h, e1.m), TRUE)
+               ELSE /\ e' = [m |-> r.m, snap |-> r.snap, log |-> r.log] /\ steps' = steps + 1 /\ UNCHANGED <<ci, h, oi, ph, ev, nbad>>
 
 Finish ==
   /\ ci = Len(Cases) + 1
